@@ -434,6 +434,10 @@ class OpaquePubKey(PubKey):  # pragma: no cover
     def __iter__(self):
         yield self.data
 
+    def __len__(self):
+        # the whole opaque material is public: it is what the fingerprint must cover
+        return len(self.data)
+
     def __pubkey__(self):
         return NotImplemented
 
